@@ -406,7 +406,18 @@ def _b_sum(interp, st, args, kw):
 def _b_minmax(which):
     def fn(interp, st, args, kw):
         if kw:
-            raise Unsupported("min/max with key")
+            if list(kw) != ["key"] or len(args) != 1:
+                raise Unsupported("min/max with these keywords")
+            items = interp.iterate_concrete(st, interp.resolve(st, args[0]))
+            if not items:
+                _raise("ValueError", "min()/max() arg is an empty sequence")
+            keys = [interp.resolve(st, interp.call(st, kw["key"], [x], {})) for x in items]
+            best, bk = items[0], keys[0]
+            for x, k in zip(items[1:], keys[1:]):
+                c = num_cmp("<" if which == "min" else ">", k, bk)     # first extremum wins, as in CPython
+                if interp.truth(st, c):
+                    best, bk = x, k
+            return best
         if len(args) == 1:
             items = interp.iterate_concrete(st, interp.resolve(st, args[0]))
         else:
